@@ -181,6 +181,40 @@ def r14_1_scalar_table(ctx, rid='R14.1'):
             'set_value text: a float is spelt by PyYAML\'s represent_float', v.key('text:float'), v.loc(),
             'set_value writes str(value) for a float: 1e+20, inf and nan are not YAML floats, and the dump then carries an explicit '
             '!!float tag')
+    # None: str(None) == 'None' does not resolve to null, so the dump carries an explicit `!!null 'None'` (F30, fixed by f824033).
+    # Every definition of the text that is `str(value)` must be out of reach of a None value: guarded by `value is None` held false,
+    # or by a positive isinstance() on types that exclude NoneType.
+    def _excludes_none(gs) -> bool:
+        for g, p in gs:
+            if G.canon_atom(g, p) == ('%s is None' % vp, False):
+                return True
+            ia = isinstance_atom(g)
+            if ia and ia[0] == vp and p and 'NoneType' not in ia[1]:
+                return True
+        return False
+
+    def _text_defs(e: ast.AST, at: ast.AST, extra, depth=0):
+        """(expression, guards) pairs that can be the text `e` read at `at` - through local names and conditional expressions"""
+        if isinstance(e, ast.IfExp):
+            return _text_defs(e.body, at, extra + [(e.test, True)], depth) + _text_defs(e.orelse, at, extra + [(e.test, False)], depth)
+        if isinstance(e, ast.Name) and depth < 4:
+            out = []
+            for d in reaching_defs(v, at, e.id):
+                out += _text_defs(d.value, d, extra + list(v.guards(d)), depth + 1)
+            if out:
+                return out
+        return [(e, extra + list(v.guards(at)))]
+
+    nonesites = []
+    for n in news:
+        if len(n.args) > 1:
+            for e, gs in _text_defs(n.args[1], n, []):
+                if norm(e) == 'str(%s)' % vp and not _excludes_none(gs):
+                    nonesites.append(n)
+    r.check(not nonesites, "set_value text: None is not spelt str(None) (a null scalar's text resolves to null: 'null', '~' or '')",
+            v.key('text:None'), v.loc(nonesites[0]) if nonesites else v.loc(),
+            "set_value(None) writes the text 'None' under the null tag: PyYAML's serializer does not resolve 'None' to null, and the dump "
+            "carries an explicit tag (`!!null 'None'`)")
     bn = [n for n in v.walk() if isinstance(n, ast.Assign) and norm(n.value) == "'true' if %s else 'false'" % vp]
     r.check(bool(bn) and all(v.has_guard(n, 'isinstance(%s, bool)' % vp, True, expand=False) for n in bn), 'the bool text is chosen '
             'under isinstance(value, bool)', v.key('bool-guard'), v.loc(), 'set_value\'s bool spelling is not selected by isinstance(value, bool)')
